@@ -1334,12 +1334,6 @@ impl Worterbuch {
             }
         }
 
-        let pattern = topic!(SYSTEM_TOPIC_ROOT, SYSTEM_TOPIC_CLIENTS, client_id, "#");
-        debug!("Deleting {pattern}");
-        if let Err(e) = self.pdelete(pattern, INTERNAL_CLIENT_ID).await {
-            debug!("Error in subscription monitoring: {e}");
-        }
-
         if let Some(grave_goods) = grave_goods {
             info!(
                 "Burying grave goods of client {client_id} ({}).",
@@ -1400,6 +1394,14 @@ impl Worterbuch {
                     .map(|it| it.to_string())
                     .unwrap_or_else(|| "<unknown>".to_owned())
             );
+        }
+
+        // the client's own $SYS entries go last: its last will is applied with its own id and may
+        // legally write some of them again
+        let pattern = topic!(SYSTEM_TOPIC_ROOT, SYSTEM_TOPIC_CLIENTS, client_id, "#");
+        debug!("Deleting {pattern}");
+        if let Err(e) = self.pdelete(pattern, INTERNAL_CLIENT_ID).await {
+            debug!("Error in subscription monitoring: {e}");
         }
 
         self.persistent_storage
